@@ -24,11 +24,57 @@ func vpC14CheckRefresh(s *vpSim, o int, at time.Time) string {
 }
 
 func vpC14CheckRefreshTol(s *vpSim, o int, at time.Time, tolerateAhead bool) string {
+	return vpC14CheckRefreshOnly(s, o, at, tolerateAhead, nil)
+}
+
+// vpC14CleanNodes returns the nodes an announcement of origin o numbered in (lo, hi] must
+// still reach although its number collided with a replay: those connected to o by a chain
+// of links on which no node (the node itself included) had received that number before.
+func vpC14CleanNodes(s *vpSim, o int, lo, hi uint64, before map[string]int) map[int]bool {
+	dirty := func(i int) bool {
+		for q := lo + 1; q <= hi; q++ {
+			if before[fmt.Sprintf("node %d origin %d seq %d", i, o, q)] > 0 {
+				return true
+			}
+		}
+		return false
+	}
+	clean := map[int]bool{}
+	seen := map[int]bool{o: true}
+	queue := []int{o}
+	for len(queue) > 0 {
+		x := queue[0]
+		queue = queue[1:]
+		for k, up := range s.adj {
+			if !up {
+				continue
+			}
+			y := -1
+			if k[0] == x {
+				y = k[1]
+			} else if k[1] == x {
+				y = k[0]
+			}
+			if y < 0 || seen[y] {
+				continue
+			}
+			seen[y] = true
+			if dirty(y) {
+				continue
+			}
+			clean[y] = true
+			queue = append(queue, y)
+		}
+	}
+	return clean
+}
+
+func vpC14CheckRefreshOnly(s *vpSim, o int, at time.Time, tolerateAhead bool, only map[int]bool) string {
 	d := s.dist(o)
 	want := s.originated(o)
 	issued := s.nodes[o].mgr.GetCurrentSequence()
 	for i := range s.nodes {
-		if i == o || d[i] < 0 {
+		if i == o || d[i] < 0 || (only != nil && !only[i]) {
 			continue
 		}
 		got := map[string]vpLearned{}
@@ -126,7 +172,7 @@ func vpC14RunTol(t *rapid.T, st *vp.Stats, lateConnects, tolerateAhead bool) {
 			t.Fatalf("VPFAIL C14 no quiescence: %s", s.history())
 		}
 	}
-	announces, collisions := 0, 0
+	announces, collisions, cleanJudged := 0, 0, 0
 	t.Repeat(map[string]func(*rapid.T){
 		"announce": func(t *rapid.T) {
 			o := rapid.IntRange(0, n-1).Draw(t, "origin")
@@ -150,6 +196,15 @@ func vpC14RunTol(t *rapid.T, st *vp.Stats, lateConnects, tolerateAhead bool) {
 				// (same root cause) such an announcement is not judged
 				collisions++
 				if tolerateAhead {
+					// ... except at the nodes the collision cannot explain: those reachable from
+					// the origin without passing a node that had seen the number
+					clean := vpC14CleanNodes(s, o, lo, hi, before)
+					if len(clean) > 0 {
+						cleanJudged++
+						if msg := vpC14CheckRefreshOnly(s, o, at, true, clean); msg != "" {
+							t.Fatalf("VPFAIL C14 %s (announcement numbers %d..%d collided with a replay elsewhere, but this node had never been sent them)\n  graph %s %v\n  history: %s", msg, lo+1, hi, shape, edges, s.history())
+						}
+					}
 					return
 				}
 			}
@@ -193,6 +248,9 @@ func vpC14RunTol(t *rapid.T, st *vp.Stats, lateConnects, tolerateAhead bool) {
 	cls := []string{mode, shape}
 	if collisions > 0 {
 		cls = append(cls, "announcement-number-collided-with-a-replay(not judged for delivery)")
+	}
+	if cleanJudged > 0 {
+		cls = append(cls, "collided-announcement-judged-at-untouched-nodes")
 	}
 	if relayedAhead {
 		cls = append(cls, "replay-relayed-by-a-node-ahead-of-the-origin")
